@@ -22,6 +22,9 @@ CHECKS = {
  "C06": ("Runtime post-condition on every evaluate_new_data of a common or group matrix: five shadow self-evaluations of the matrix's own training rows (random subset, permutation, repetition, single row, all rows of / lacking one level) must reproduce design_matrix[idx] with the same columns; plus fit-once trace on every stateful-transform instance and frozen-coding trace on every component. Driven by seeded random designs over stateful / nested / interacting transforms, C/T/S with references and levels=, ordered categoricals, operator-written formulas and group-specific terms, and by the repository's tests (advisory there).",
          "The oracle is the training matrix itself (no expected values); equality rtol 1e-10. Says nothing about transforms outside the generator's vocabulary.",
          "relational runtime post-condition (shadow self-evaluation on hooked evaluate_new_data) + fit-once / frozen-coding trace monitors"),
+ "C07": ("History checker: sequences of build-design / evaluate-common / evaluate-group / set-config operations are executed against the live package and every recorded result digest is compared with the same single operation executed in fresh process-state (formulae purged from sys.modules and re-imported); after every operation all earlier results, all existing designs, the caller's frames and namespaces must be unchanged, and an in-place write to a returned matrix must change nothing else. All histories up to length 3 (thorough: 4, thinned) over a pool of 4 formulas x 3 frames, random histories of length 4..12 over 6 x 4, source-free fault injection through sys.monitoring LINE callbacks, replay of sampled histories in real subprocesses with other hash seeds.",
+         "Fresh state is emulated inside the shard process (module purge); real subprocess replays are a sample. The pool is fixed; leaks that need other formulas or frames are out of reach.",
+         "online checker over recorded operation histories against an executable stateless model (fresh-state execution), snapshot invariants, sys.monitoring failpoints"),
 }
 NOT_APPLICABLE = {}
 PENDING = [f"C{i:02d}" for i in range(1, 18) if f"C{i:02d}" not in CHECKS]
